@@ -20,7 +20,7 @@ func c15Scripts() (a, b [][]int) {
 	}
 	b = [][]int{
 		{harness.OpFindAll, harness.OpFindAll}, {harness.OpFindKind0, harness.OpFindAll}, {harness.OpFindAll, harness.OpLen}, {harness.OpFindPLimit1, harness.OpFindAll},
-		{harness.OpAddV2, harness.OpFindAll}, {harness.OpAddDelR, harness.OpFindAll}, {harness.OpAddQ, harness.OpFindKind0}, {harness.OpAddR, harness.OpAddDelR}, {harness.OpFindSince2, harness.OpFindAll},
+		{harness.OpAddV2, harness.OpFindAll}, {harness.OpAddDelR, harness.OpFindAll}, {harness.OpAddQ, harness.OpFindKind0}, {harness.OpAddR, harness.OpAddDelR}, {harness.OpFindSince2, harness.OpFindAll}, {harness.OpFindMulti, harness.OpFindMulti}, {harness.OpFindMulti},
 	}
 	return
 }
